@@ -272,6 +272,31 @@ def leaf_basis(reduced=False):
     return b
 
 
+def MT(n):
+    return {'o': 'meta', 'n': n}
+
+
+META_NAMES = ['Integer', 'Integer5_120', 'NegInt', 'Decimal', 'Date', 'Date2', 'IPv4', 'Word', 'WordContains', 'Numeral2', 'IntegerExt',
+              'Email', 'HttpUrl']
+
+
+def meta_operand_programs():
+    """operands produced by the meta layer under every operator / quantifier / group / assertion template"""
+    partners = [L('a'), L('a|b'), L('1'), L('.'), CLS('AnyDigit'), OPN('alt', L('x'), L('yz')), E(0), OPN('cap', L('q')), MT('Integer5_120'), MT('Word')]
+    for n in META_NAMES:
+        x = MT(n)
+        for name, fn, forms in unary_templates():
+            for f in forms:
+                yield {'prog': fn(x), 'form': f, 'w': 'W3m'}
+        for name, fn, forms in binary_templates():
+            for y in partners:
+                for f in forms:
+                    yield {'prog': fn(x, y), 'form': f, 'w': 'W3m'}
+                    yield {'prog': fn(y, x), 'form': f, 'w': 'W3m'}
+        yield {'prog': OPN('cat', OPN('cap', x, name='m1'), L(' '), {'o': 'bref', 'r': 'm1'}), 'form': 'c', 'w': 'W3m'}
+        yield {'prog': OPN('plus', OPN('cat', x, OPN('opt', L(',')))), 'form': 'm', 'w': 'W3m'}
+
+
 def unary_templates():
     """functions X -> program node; each tagged with the forms it exists in"""
     T = []
